@@ -86,6 +86,8 @@ def check_case(case, res: Result):
     from opv.rigs import engine_rig as R
     from opv.rigs import cmd_rig as CR
 
+    CR.install_schedule_hook()
+    CR.REQS.clear()
     rig = R.EngineRig(case["text"], long_n=case.get("long_n", 4))
     viol: list[tuple] = []
     sched = [tuple(s) for s in case["sched"]]
